@@ -182,6 +182,11 @@ func (fx *fexec) externModel(key string, x *ssa.Call, f *ssa.Function, args []Va
 		return Val{Ty: rt}, true
 	case "slices.Delete":
 		return fx.slicesDelete(x, args, st, pos), true
+	case repoModule + "/tm2/pkg/amino.MustUnmarshal", repoModule + "/tm2/pkg/amino.MustUnmarshalSized", repoModule + "/tm2/pkg/amino.MustUnmarshalAny":
+		// Must*: the same decoding, panicking when it reports an error
+		ev := fx.aminoUnmarshal(key, x, args, st, pos)
+		fx.panicPoint(st, not(eq(ev.T, intLit(0))), "panic", "amino.MustUnmarshal panics on undecodable input", pos)
+		return Val{Ty: rt}, true
 	case repoModule + "/tm2/pkg/amino.Unmarshal", repoModule + "/tm2/pkg/amino.UnmarshalSized",
 		repoModule + "/tm2/pkg/amino.UnmarshalAny", repoModule + "/tm2/pkg/amino.UnmarshalJSON":
 		return fx.aminoUnmarshal(key, x, args, st, pos), true
